@@ -41,12 +41,26 @@ def theTbl : Spec.Tbl → Option (Lscr.Leaf × List (Nat × String) × String)
   | .video => some (.cast, Spec.tblVideo, "cast")
   | _ => none
 
+/-- `the number of <chunk>s of e` (5c 01) / `the last <chunk> of e` (5c 00, k = 11 + rank): chunk kind text of a rank -/
+def chunkTy (r : Nat) : Option Str := (Spec.ChunkKind.ofRank r).map (·.tag.toList)
+
+/-- the two counting / last-chunk forms: operation name and the rank encoded in `k` -/
+def strThe : Spec.Tbl → Nat → Option (Str × Nat)
+  | .numChunks, k => some (S "number", k)
+  | .special, k => if 12 ≤ k then some (S "last", k - 11) else none
+  | _, _ => none
+
 /-- the object index as the model keeps it: the `.name` of the popped node — faithful exactly for literals and variables (F20) -/
 def idxName : Spec.Expr → Option Lscr.Name
   | .int k => some (.s (Lscr.natStr k))
   | .str v => some (.s (Lscr.escapeString v))
   | .var _ v => some (.s v)
   | _ => none
+
+/-- `int 0`: the "no `to` part" marker of a chunk expression (the bytecode's own convention) -/
+def isZero : Spec.Expr → Bool
+  | .int 0 => true
+  | _ => false
 
 mutual
 /-- `Emb e n`: `n` is the node the model builds for `e` (any positions) -/
@@ -69,9 +83,12 @@ def Emb : Spec.Expr → Node → Prop
   | .the .sys k [], n => ∃ p q o, n = .propAcc p (.leaf .localVar (.s o) q) (Spec.nameOrUnknown Spec.tblSys k) false ∧
       (Lscr.startsWith o (S "_") = true ∨ o = S "tell_obj")
   | .the .special k [], n => ∃ p, n = .leaf .propName (.s (Spec.nameOrUnknown Spec.tblSpecial k)) p
-  | .the t k [e], n => ∃ p q cls tb w nm, theTbl t = some (cls, tb, w) ∧ idxName e = some nm ∧
-      n = .propAcc p (.leaf cls nm q) (Spec.nameOrUnknown tb k) false
+  | .the t k [e], n => (∃ p q cls tb w nm, theTbl t = some (cls, tb, w) ∧ idxName e = some nm ∧
+      n = .propAcc p (.leaf cls nm q) (Spec.nameOrUnknown tb k) false) ∨
+      (∃ p x op r ty, strThe t k = some (op, r) ∧ chunkTy r = some ty ∧ n = .unaryStr op p (some ty) x ∧ Emb e x)
   | .oprop v o, n => ∃ p x, n = .propAcc p x v true ∧ Emb o x
+  | .chunk k a b d, n => ∃ p x y z, n = .strOp k.tag.toList p x y z ∧ Emb a x ∧
+      ((isZero b = true ∧ y = .none) ∨ (isZero b = false ∧ Emb b y)) ∧ Emb d z
   | _, _ => False
 /-- argument lists, in source order (the model stores them in pop order = reversed) -/
 def EmbL : List Spec.Expr → List Node → Prop
@@ -101,9 +118,12 @@ def EmbH (hs : List Spec.Name) : Spec.Expr → Node → Prop
   | .the .sys k [], n => ∃ p q o, n = .propAcc p (.leaf .localVar (.s o) q) (Spec.nameOrUnknown Spec.tblSys k) false ∧
       (Lscr.startsWith o (S "_") = true ∨ o = S "tell_obj")
   | .the .special k [], n => ∃ p, n = .leaf .propName (.s (Spec.nameOrUnknown Spec.tblSpecial k)) p
-  | .the t k [e], n => ∃ p q cls tb w nm, theTbl t = some (cls, tb, w) ∧ idxName e = some nm ∧
-      n = .propAcc p (.leaf cls nm q) (Spec.nameOrUnknown tb k) false
+  | .the t k [e], n => (∃ p q cls tb w nm, theTbl t = some (cls, tb, w) ∧ idxName e = some nm ∧
+      n = .propAcc p (.leaf cls nm q) (Spec.nameOrUnknown tb k) false) ∨
+      (∃ p x op r ty, strThe t k = some (op, r) ∧ chunkTy r = some ty ∧ n = .unaryStr op p (some ty) x ∧ EmbH hs e x)
   | .oprop v o, n => ∃ p x, n = .propAcc p x v true ∧ EmbH hs o x
+  | .chunk k a b d, n => ∃ p x y z, n = .strOp k.tag.toList p x y z ∧ EmbH hs a x ∧
+      ((isZero b = true ∧ y = .none) ∨ (isZero b = false ∧ EmbH hs b y)) ∧ EmbH hs d z
   | _, _ => False
 def EmbLH (hs : List Spec.Name) : List Spec.Expr → List Node → Prop
   | [], ns => ns = []
@@ -125,12 +145,15 @@ theorem emb_symName' (e : Spec.Expr) (n : Node) (h : Emb e n) (hs : ∀ v, e ≠
   | key v => obtain ⟨p, rfl⟩ := h; rfl
   | movie v => rcases h with ⟨p, rfl⟩ | ⟨p, q, o, rfl, _⟩ <;> rfl
   | oprop v o => obtain ⟨p, x, rfl, _⟩ := h; rfl
+  | chunk k a b d => obtain ⟨p, x, y, z, rfl, _⟩ := h; rfl
   | the t k as =>
     cases as with
     | cons y ys =>
       cases ys with
       | cons z zs => cases t <;> exact absurd h (by simp [Emb])
-      | nil => simp only [Emb] at h; obtain ⟨p, q, cls, tb, w, nm, _, _, rfl⟩ := h; rfl
+      | nil =>
+        simp only [Emb] at h
+        rcases h with ⟨p, q, cls, tb, w, nm, _, _, rfl⟩ | ⟨p, x, op, r, ty, _, _, rfl, _⟩ <;> rfl
     | nil =>
       cases t with
       | sys => simp only [Emb] at h; obtain ⟨p, q, o, rfl, _⟩ := h; rfl
@@ -149,6 +172,37 @@ def EmbLv : Spec.Expr → Node → Prop
   | .oprop v o, n => Emb (.oprop v o) n
   | _, _ => False
 
+/-- the image of an expression is never the None node (no fragment hypothesis) -/
+theorem emb_isNone (e : Spec.Expr) (n : Node) (h : Emb e n) : n.isNone = false := by
+  cases e with
+  | int k => obtain ⟨p, rfl⟩ := h; rfl
+  | str s => obtain ⟨p, rfl⟩ := h; rfl
+  | sym s => obtain ⟨p, rfl⟩ := h; rfl
+  | var k v => cases k <;> (obtain ⟨p, rfl⟩ := h; rfl)
+  | un op a => obtain ⟨p, y, rfl, _⟩ := h; rfl
+  | bin op a b => obtain ⟨p, y, z, rfl, _⟩ := h; rfl
+  | field a => obtain ⟨p, y, rfl, _⟩ := h; rfl
+  | call f as => obtain ⟨p, p', wr, ops, rfl, _⟩ := h; rfl
+  | list as => obtain ⟨p, p', ops, rfl, _⟩ := h; rfl
+  | key v => obtain ⟨p, rfl⟩ := h; rfl
+  | movie v => rcases h with ⟨p, rfl⟩ | ⟨p, q, o, rfl, _⟩ <;> rfl
+  | oprop v o => obtain ⟨p, x, rfl, _⟩ := h; rfl
+  | chunk k a b d => obtain ⟨p, x, y, z, rfl, _⟩ := h; rfl
+  | the t k as =>
+    cases as with
+    | cons y ys =>
+      cases ys with
+      | cons z zs => cases t <;> exact absurd h (by simp [Emb])
+      | nil =>
+        simp only [Emb] at h
+        rcases h with ⟨p, q, cls, tb, w, nm, _, _, rfl⟩ | ⟨p, x, op, r, ty, _, _, rfl, _⟩ <;> rfl
+    | nil =>
+      cases t with
+      | sys => simp only [Emb] at h; obtain ⟨p, q, o, rfl, _⟩ := h; rfl
+      | special => simp only [Emb] at h; obtain ⟨p, rfl⟩ := h; rfl
+      | _ => exact absurd h (by simp [Emb])
+  | _ => exact absurd h (by simp [Emb])
+
 theorem emb_the_name (t : Spec.Tbl) (k : Nat) (as : List Spec.Expr) (n : Node) (h : Emb (.the t k as) n) : ∃ nm, n.name = .ok nm := by
   cases as with
   | nil =>
@@ -158,7 +212,9 @@ theorem emb_the_name (t : Spec.Tbl) (k : Nat) (as : List Spec.Expr) (n : Node) (
     | _ => exact absurd h (by simp [Emb])
   | cons x xs =>
     cases xs with
-    | nil => simp only [Emb] at h; obtain ⟨p, q, cls, tb, w, nm, _, _, rfl⟩ := h; exact ⟨_, rfl⟩
+    | nil =>
+      simp only [Emb] at h
+      rcases h with ⟨p, q, cls, tb, w, nm, _, _, rfl⟩ | ⟨p, x, op, r, ty, _, _, rfl, _⟩ <;> exact ⟨_, rfl⟩
     | cons y ys => cases t <;> exact absurd h (by simp [Emb])
 
 /-- every assignment target has a `.name` (no fragment hypothesis; follows every extension of `EmbLv`) -/
@@ -226,6 +282,12 @@ def objOk : Spec.Expr → Bool
   | .var _ v => v != S "me"
   | _ => true
 
+/-- the string of `chunk a to b of d` is not itself a coarser chunk (`char 1 of word 2 of x` is compiled into ONE slice
+    instruction with two slots filled; covered: one slot per instruction) -/
+def notMerged (r : Nat) : Spec.Expr → Bool
+  | .chunk k _ _ _ => decide (k.rank ≤ r)
+  | _ => true
+
 mutual
 /-- expressions of the link theorems -/
 def FragE : Spec.Expr → Bool
@@ -243,8 +305,11 @@ def FragE : Spec.Expr → Bool
   | .movie v => idOk v
   | .the .sys k [] => Spec.tblSys.any (fun x => x.1 == k)
   | .the .special k [] => decide (k < 6)
-  | .the t k [e] => (match theTbl t with | some (_, tb, _) => tb.any (fun x => x.1 == k) | none => false) && (idxName e).isSome && FragE e
+  | .the t k [e] =>
+    ((match theTbl t with | some (_, tb, _) => tb.any (fun x => x.1 == k) | none => false) && (idxName e).isSome
+      || (match strThe t k with | some (_, r) => (chunkTy r).isSome | none => false)) && FragE e
   | .oprop v o => idOk v && objOk o && FragE o
+  | .chunk k a b d => FragE a && !isZero a && FragE b && FragE d && notMerged k.rank d
   | _ => false
 def FragL : List Spec.Expr → Bool
   | [] => true
@@ -254,7 +319,7 @@ end
 /-- assignment targets: the four variable kinds -/
 def FragLv : Spec.Expr → Bool
   | .var _ n => idOk n
-  | .the t k as => FragE (.the t k as)
+  | .the t k as => FragE (.the t k as) && (match as with | [_] => (theTbl t).isSome | _ => true)
   | .oprop v o => FragE (.oprop v o)
   | _ => false
 
@@ -341,8 +406,14 @@ def mE : Spec.Expr → Str
   | .the t k [e] =>
     (match theTbl t with
      | some (_, tb, w) => S "the " ++ Spec.nameOrUnknown tb k ++ S " of " ++ w.toList ++ S " " ++ mE e
-     | none => [])
+     | none =>
+       match strThe t k with
+       | some (op, r) =>
+         if op = S "last" then S "the last " ++ (chunkTy r).getD [] ++ S " of " ++ mE e
+         else S "the number of " ++ (chunkTy r).getD [] ++ S "s of " ++ mE e
+       | none => [])
   | .oprop v o => S "the " ++ v ++ S " of " ++ mE o
+  | .chunk k a b d => k.tag.toList ++ S " " ++ mE a ++ (if isZero b then [] else S " to " ++ mE b) ++ S " of " ++ mE d
   | _ => []
 /-- `", ".join(...)` -/
 def mArgs : List Spec.Expr → Str
